@@ -121,6 +121,30 @@ def run_case(ctx, case, model=True):
             res = fc.get_total_co2_emissions(fuel_consumer_class=cls)
         except Exception as e:
             ctx.count("emissions_rejected", core.error_class(e))
+    # a user's own factors edited in place after a first evaluation (a slip sweep on one factor object): the next evaluation uses them
+    if res is not None and case["user"] is not None and case["idx"] % 2 == 0:
+        try:
+            import copy
+            case2 = copy.deepcopy(case)
+            for r in case2["user"]["rows"]:
+                r[0], r[3] = float(np.round(r[0] * 1.07, 6)), float(np.round(max(0.0, r[3] * 0.5 + 0.3), 6))
+            for f in fuels:
+                for row, r2 in zip(f.ghg_emission_factor_tank_to_wake, case2["user"]["rows"]):
+                    row.co2_factor_gco2_per_gfuel, row.c_slip_percent = r2[0], r2[3]
+            res2 = fc.get_total_co2_emissions(fuel_consumer_class=cls)
+            res3 = FuelConsumption(fuels=build(case2)).get_total_co2_emissions(fuel_consumer_class=cls)
+            ctx.count("user_factors_edited_in_place", True)
+            for nm in ("tank_to_wake_kg_or_gco2eq_per_gfuel", "well_to_tank_kg_or_gco2eq_per_gfuel", "tank_to_wake_kg_or_gco2eq_per_gfuel_without_slip"):
+                a, b = field(res2, nm, n), field(res3, nm, n)
+                if not all(close(x, y, scale=1.0) for x, y in zip(a, b)):
+                    ctx.fail("predicate", "stale-factors-after-in-place-edit", f"{nm}: {a.tolist()} after editing the factor objects, {b.tolist()} with fresh ones", where)
+                    break
+        except Exception as e:
+            ctx.count("user_factor_edit_rejected", core.error_class(e))
+        finally:        # back to the case's own factors for what follows
+            for f in fuels:
+                for row, r0 in zip(f.ghg_emission_factor_tank_to_wake, case["user"]["rows"]):
+                    row.co2_factor_gco2_per_gfuel, row.c_slip_percent = r0[0], r0[3]
     # ---------------- model
     mres = "skip"
     if model and ctx.model_available:
